@@ -50,6 +50,12 @@ def run_c01(tier, seed):
                               timeout=300 if tier == "quick" else 7200, work=work, env=vlib.SAN_ENV_EXPLORE, tag="a")
     c2, d2, s2, st2 = vlib.collect_runs(v, res2)
     stats["asan_pass"] = dict(evaluations=int(c2.get("evaluations", 0)), **st2)
+    sbin = vlib.build_harness("server", "plain")
+    res3 = vlib.run_resumable(sbin, ["--prop", "seg", "--seed", str(seed), "--cases", str(10 if tier == "quick" else 400)], 6,
+                              timeout=300 if tier == "quick" else 7200, work=work, tag="s")
+    c3, d3, s3, st3 = vlib.collect_runs(v, res3, only_prefix="c01:")
+    distinct |= {x for x in d3}
+    stats["server_level"] = dict(exchanges=int(c3.get("counts", {}).get("c01_server_level", 0)), **st3)
     extra = dict(cut_classes_hit=sorted(counters.get("cutclasses", [])), n_cut_classes=len(counters.get("cutclasses", [])))
     v.assumptions += ["reference = the same parser fed the whole message at once (differential)", "messages come from harness/msggen.h (RFC 7230 grammar + near-well-formed variants), parser limit 64 KiB so the size limit is not in play"]
     return _finish(v, work, counters, distinct, samples, stats,
@@ -70,6 +76,12 @@ def run_c04(tier, seed):
     c2, d2, s2, st2 = vlib.collect_runs(v, res2)
     distinct |= d2
     stats["asan_pass"] = dict(evaluations=int(c2.get("evaluations", 0)), **st2)
+    sbin = vlib.build_harness("server", "plain")
+    res3 = vlib.run_resumable(sbin, ["--prop", "seg", "--seed", str(seed + 3), "--cases", str(10 if tier == "quick" else 400)], 6,
+                              timeout=300 if tier == "quick" else 7200, work=work, tag="s")
+    c3, d3, s3, st3 = vlib.collect_runs(v, res3, only_prefix="c04:")
+    distinct |= d3
+    stats["server_level"] = dict(keepalive_exchanges=int(c3.get("counts", {}).get("c04_server_level", 0)), **st3)
     v.assumptions += ["reset protocol as the framework applies it: reset() after Done, after any exception, after a refused feed (413); the client moves the response out before reset()",
                       "no pipelining: segments never span two messages"]
     return _finish(v, work, counters, distinct, samples, stats,
@@ -90,7 +102,14 @@ def run_c03(tier, seed):
     c2, d2, s2, st2 = vlib.collect_runs(v, res2)
     stats["alloc_pass"] = dict(evaluations=int(c2.get("evaluations", 0)), monitor_counts=c2.get("counts", {}), **st2)
     counters["evaluations"] = counters.get("evaluations", 0) + c2.get("evaluations", 0)
+    sabin = vlib.build_harness("server", "asan")
+    res3 = vlib.run_resumable(sabin, ["--prop", "c03s", "--seed", str(seed), "--cases", str(40 if tier == "quick" else 1500)], 8,
+                              timeout=300 if tier == "quick" else 7200, work=work, env=vlib.SAN_ENV_EXPLORE, tag="s")
+    c3, d3, s3, st3 = vlib.collect_runs(v, res3)
+    distinct |= d3
+    counters["evaluations"] = counters.get("evaluations", 0) + c3.get("evaluations", 0)
+    stats["server_level"] = dict(hostile_inputs=int(c3.get("evaluations", 0)), monitor_counts=c3.get("counts", {}), **st3)
     v.assumptions += ["memory bound judged per parser: largest single request <= 2*limit+1KiB, peak live <= 4*limit+8KiB (plain flavour, replaced operator new)",
-                      "server-level liveness is checked by the live harness part of this check when present"]
+                      "server level: 1-worker ASan endpoint, hostile bytes in random TCP segments on one connection, a keep-alive probe on another connection must be answered after every input (5 s x load bound, confirmed on a fresh connection)"]
     return _finish(v, work, counters, distinct, samples, stats,
                    "mutations of generated messages (bit flips, deletions, duplicated tokens, overlong numbers, lone CR/LF, doubled/missing separators, NUL/high bytes, truncation, injected framing headers), grammar-directed garbage and valid messages, each delivered whole, byte-wise and randomly cut to RequestParser/ResponseParser with limits 64/256/4096; every registered header parser, Cookie, CookieJar, MediaType, Address, Port, Base64 from guard-page buffers. Oracles: ASan+UBSan(+vector annotations), 2 s CPU budget per delivery, allocation monitor. distinct = (entry point, origin class, outcome, input hash%8192)")
